@@ -965,6 +965,119 @@ struct RulesSession : public vw::Session {
     return r;
   }
 
+
+  // frtable: the altchain's fork resolution score table (read from the params object)
+  std::string frtable() {
+    std::string r;
+    for (auto x : params->alt.getForkResolutionLookUpTable()) r += (r.empty() ? "" : ",") + std::to_string(x);
+    return r;
+  }
+
+  // payscen <hE> <d> <third>: "an accepted honest endorsement counts in payouts". d is given relative to the size n of
+  // relativeScoreLookupTable() READ FROM THE PARAMS OBJECT: 0 | 1 | n-2 | n-1 | n. Block a<hE> gets endorsement t1
+  // (earliest publication), t2 whose VBK block of proof is exactly d above t1's, optionally t3 (third = mid | one |
+  // same | -) in between; all blocks of proof on one VBK line (= best chain), all ATVs in block a<hE+1>. The chain is
+  // extended to height hE + payoutDelay - 1, getPopPayout is taken there. Oracle: every endorsement is accepted, and its
+  // payout info is paid > 0 iff the table weight at its distance is non-zero (distance >= n: weight 0).
+  std::string payscen(Instance& I, const std::vector<std::string>& t) {
+    if (t.size() < 4) return "SKIP args";
+    auto& R = *reg;
+    const auto& table = params->alt.getPayoutParams().relativeScoreLookupTable();
+    const int n = (int)table.size();
+    if (n < 3) return "SKIP table";
+    int hE = std::stoi(t[1]);
+    const std::string& sym = t[2];
+    int d = sym == "0" ? 0 : sym == "1" ? 1 : sym == "n-2" ? n - 2 : sym == "n-1" ? n - 1 : sym == "n" ? n : -1;
+    if (d < 0 || hE < 1) return "SKIP args";
+    long delay = params->alt.getPayoutParams().getPopPayoutDelay();
+    int total = hE + (int)delay - 1;
+    std::string prev = "a0";
+    for (int k = 1; k <= total; k++) {
+      std::string id = "a" + std::to_string(k);
+      if (!R.newAlt(id, prev)) return "SKIP alt";
+      R.setPd(id, {}, {}, {});
+      prev = id;
+    }
+    std::string E = "a" + std::to_string(hE), C = "a" + std::to_string(hE + 1);
+    std::vector<std::pair<int, std::string>> ends{{0, "t1"}, {d, "t2"}};
+    if (t[3] == "mid") ends.push_back({d / 2, "t3"});
+    if (t[3] == "one") ends.push_back({std::min(1, d), "t3"});
+    if (t[3] == "same") ends.push_back({d, "t3"});
+    std::sort(ends.begin(), ends.end());
+    std::string vtip = R.nameOf(R.miner.vbk().getBestChain().tip()->getHash());
+    std::map<std::string, int> distOf;
+    std::map<std::string, std::string> bopOf;
+    int last = -1;
+    std::string lastBop = vtip;
+    size_t k = 0;
+    while (k < ends.size()) {
+      int g = ends[k].first;
+      std::vector<std::string> call{"atvn", ""};
+      for (; k < ends.size() && ends[k].first == g; k++) {
+        const std::string& tid = ends[k].second;
+        call.push_back(tid + ":" + E + ":ee0" + tid.substr(1));
+        distOf[tid] = g;
+      }
+      // filler VBK blocks so that this block of proof lands exactly g above the first one
+      int fill = last < 0 ? 0 : g - last - 1;
+      for (int f = 0; f < fill; f++) {
+        lastBop = R.mineVbk(lastBop);
+        if (lastBop.rfind("SKIP", 0) == 0) return "SKIP miner";
+      }
+      call[1] = lastBop;
+      std::string bop = atvn(call);
+      if (bop.rfind("SKIP", 0) == 0) return "SKIP atvn " + bop;
+      for (size_t j = 2; j < call.size(); j++) bopOf[call[j].substr(0, call[j].find(':'))] = bop;
+      lastBop = bop;
+      last = g;
+    }
+    int h1 = R.vbk.at(bopOf["t1"]).getHeight();
+    for (auto& kv : distOf)
+      if (R.vbk.at(bopOf[kv.first]).getHeight() - h1 != kv.second) return "SKIP distance";
+    std::vector<std::string> atvs;
+    for (auto& e : ends) atvs.push_back(e.second);
+    R.setPd(C, R.vbkPathFrom({"v0"}, lastBop), {}, atvs);
+    for (int j = 1; j <= total; j++) {
+      std::string id = "a" + std::to_string(j);
+      if (I.hdr(id) != "ok") return "fail hdr " + id;
+      auto b = I.body(id);
+      if (b != "connected") return "fail honest body " + id + ": " + b;
+    }
+    auto st = I.setState(prev);
+    if (st != "true") return "fail honest endorsements refused: " + st;
+    for (auto& tid : atvs) {
+      auto e = endorsedOp(I, tid, C);
+      if (e != "111") return "fail endorsement " + tid + " not recorded: " + e;
+      auto* bi = I.tree.vbk().getBlockIndex(R.vbk.at(bopOf[tid]).getHash());
+      if (bi == nullptr || !I.tree.vbk().getBestChain().contains(bi)) return "SKIP bop-not-on-best-chain";
+    }
+    DefaultPopRewardsCalculator calc(I.tree);
+    PopPayouts out;
+    ValidationState vs;
+    if (!calc.getPopPayout(I.idx(prev)->getHash(), out, vs)) return "fail getPopPayout " + vs.GetPath();
+    bool bad = false;
+    std::string r = " n=" + std::to_string(n) + " d=" + std::to_string(d);
+    for (auto& tid : atvs) {
+      int dist = distOf[tid];
+      double w = dist < n ? table[(size_t)dist] : 0.0;
+      int64_t paidAmount = 0;
+      const auto& pi = R.atv.at(tid).transaction.publicationData.payoutInfo;
+      for (auto& kv : out.payouts)
+        if (kv.first == pi) paidAmount = (int64_t)kv.second;
+      r += " " + tid + "@" + std::to_string(dist) + "=" + std::to_string(paidAmount);
+      if (w > 0.0 && paidAmount <= 0) {
+        fail("payout: honest endorsement " + tid + " accepted on the active chain, block of proof on the VBK best chain " +
+             std::to_string(dist) + " blocks after the earliest publication (table weight " + std::to_string(w) + "), is paid nothing");
+        bad = true;
+      }
+      if (w == 0.0 && paidAmount > 0) {
+        fail("payout: endorsement " + tid + " at distance " + std::to_string(dist) + " beyond the table is paid");
+        bad = true;
+      }
+    }
+    return std::string(bad ? "fail" : "ok") + r;
+  }
+
   std::string curInst;
   std::string extra(Instance& I, const std::vector<std::string>& t) override {
     const std::string& c = t[0];
@@ -992,6 +1105,8 @@ struct RulesSession : public vw::Session {
     if (c == "paid" && t.size() > 2) return paid(I, t[1], t[2]);
     if (c == "mpsub" && t.size() > 2) return mpsub(I, t[1], t[2]);
     if (c == "mpgen" && t.size() > 1) return mpgen(I, t[1]);
+    if (c == "payscen") return payscen(I, t);
+    if (c == "frtable") return frtable();
     return "";
   }
 };
